@@ -172,7 +172,7 @@ class Parse(Harness):
         finally:
             restore(cli, saved)
         shown = rec.pp[0].k if rec.pp and isinstance(rec.pp[0], Token) else None
-        oor = any("out of range" in str(x) for x in rec.printed)
+        oor = bool(rec.printed) and not rec.pp        # "an out-of-range message": a printed line and no packet shown (the wording is not compared)
         obl = [("no exception escapes", z3.Or(z3.BoolVal(exc is None), i < 0))]
         if shown is not None:
             obl.append((f"shown packet {shown} is the one asked for", z3.Or(i == shown, i < 0)))
@@ -321,7 +321,7 @@ class ParseCLI(_e2e.E2E):
         ctx.assume(z3.And(i >= 0, i <= n + 1))
         rec, exc = self._run(stream, bv.SymInt(i, nb=4, nonneg=True))
         shown = rec.pp[0] if rec.pp else None
-        oor = any("out of range" in str(x) for x in rec.printed)
+        oor = bool(rec.printed) and not rec.pp        # "an out-of-range message": a printed line and no packet shown (the wording is not compared)
         obl = [("parse --packet i: no exception escapes", exc is None)]
         k = None
         if shown is not None and not isinstance(shown, list):
@@ -466,7 +466,7 @@ def concrete(req):
     m = re.search(r"'MARK':\s*(\d+)", out)
     multi = len(re.findall(r"'MARK':", out))
     shown = int(m.group(1)) - 7000 if m and multi == 1 else None
-    return {"cls": "ran", "shown": shown, "oor": "out of range" in out, "exc": exc}
+    return {"cls": "ran", "shown": shown, "oor": bool(out.strip()) and multi == 0 and exc is None, "exc": exc}
 
 
 def _parse_cli_concrete(req):
@@ -506,7 +506,7 @@ def _parse_cli_concrete(req):
                 k = j
             o += n
             j += 1
-    got["index"] = {"shown": k, "oor": any("out of range" in str(x) for x in rec.printed), "exc": exc}
+    got["index"] = {"shown": k, "oor": bool(rec.printed) and not rec.pp, "exc": exc}
     return got
 
 
